@@ -11,6 +11,7 @@
  *                      [--mmap 0|1] [--stride N] [--shard i/n] [--case "<fault>"]
  */
 #include "../engine/mc.h"
+#include <errno.h>
 #include "synth_model.h"
 #include <soundswallower/decoder.h>
 #include <soundswallower/err.h>
@@ -33,7 +34,7 @@ static int16 AUD[20000];
 static size_t NAUD;
 
 /* ---------- the fault in force ---------- */
-enum { FK_NONE, FK_MISSING, FK_TRUNC, FK_WORD, FK_FLIP };
+enum { FK_NONE, FK_MISSING, FK_TRUNC, FK_WORD, FK_FLIP, FK_ABSENT };
 typedef struct {
     int kind;
     size_t off;
@@ -58,6 +59,18 @@ damaged_copy(size_t *len)
     return p;
 }
 
+/* "absent": the file is not in the model directory, so the library's own existence test (fopen) fails and no path is configured for it */
+FILE *__real_fopen(const char *path, const char *mode);
+FILE *
+__wrap_fopen(const char *path, const char *mode)
+{
+    if (path && TARGET && FAULT.kind == FK_ABSENT && strcmp(path, TARGET_PATH) == 0) {
+        errno = ENOENT;
+        return NULL;
+    }
+    return __real_fopen(path, mode);
+}
+
 /* the library's s3file over heap copies; the copies are released when the decoder attempt is over */
 static void *HEAPS[64];
 static int NHEAPS;
@@ -70,7 +83,7 @@ __wrap_s3file_map_file(const char *filename)
     if (TARGET && strcmp(filename, TARGET_PATH) == 0 && FAULT.kind != FK_NONE) {
         unsigned char *p;
         size_t n;
-        if (FAULT.kind == FK_MISSING)
+        if (FAULT.kind == FK_MISSING || FAULT.kind == FK_ABSENT)
             return NULL;
         p = damaged_copy(&n);
         if (NHEAPS < 64)
@@ -112,6 +125,7 @@ fault_desc(const fault_t *f, char *buf, size_t n)
 {
     switch (f->kind) {
     case FK_MISSING: snprintf(buf, n, "model=%s file=%s mmap=%d fault=missing", MODELNAME, TARGET, USE_MMAP); break;
+    case FK_ABSENT: snprintf(buf, n, "model=%s file=%s mmap=%d fault=absent", MODELNAME, TARGET, USE_MMAP); break;
     case FK_TRUNC: snprintf(buf, n, "model=%s file=%s mmap=%d fault=truncate@%zu", MODELNAME, TARGET, USE_MMAP, f->off); break;
     case FK_WORD: snprintf(buf, n, "model=%s file=%s mmap=%d fault=word@%zu=0x%08x", MODELNAME, TARGET, USE_MMAP, f->off, f->val); break;
     case FK_FLIP: snprintf(buf, n, "model=%s file=%s mmap=%d fault=flip@%zu^0x%02x", MODELNAME, TARGET, USE_MMAP, f->off, f->val); break;
@@ -127,7 +141,9 @@ fault_parse(const char *s, fault_t *f)
     if (!p)
         return -1;
     p += 6;
-    if (strncmp(p, "missing", 7) == 0)
+    if (strncmp(p, "absent", 6) == 0)
+        f->kind = FK_ABSENT;
+    else if (strncmp(p, "missing", 7) == 0)
         f->kind = FK_MISSING;
     else if (sscanf(p, "truncate@%zu", &f->off) == 1)
         f->kind = FK_TRUNC;
@@ -238,7 +254,7 @@ run_fault(const fault_t *f)
     if (IS_FEATPARAMS) {
         size_t n;
         unsigned char *p;
-        if (f->kind == FK_MISSING)
+        if (f->kind == FK_MISSING || f->kind == FK_ABSENT)
             unlink(FEATPARAMS_PATH);
         else {
             p = damaged_copy(&n);
@@ -431,6 +447,7 @@ main(int argc, char **argv)
     }
     he = header_end();
     add_fault(FK_MISSING, 0, 0);
+    add_fault(FK_ABSENT, 0, 0); /* not in the model directory at all: the library never learns a path for it */
     /* truncations: header and first 4 KiB of payload byte by byte, stride through the bulk, tail */
     for (i = 0; i < ORIGLEN && i < he + dense; i++)
         add_fault(FK_TRUNC, i, 0);
